@@ -98,6 +98,7 @@ def project(path):
         return e
 
     pending_try = {}
+    fs_excluded = set()
     # bulk transfer of the whole buffer into a collection: `vec.extend(queue.drain(..))` / `vec.extend(mem::take(&mut queue))`
     bulk = {}  # value of the drain()/take() call -> the extend() that consumes it
     for ev in path.events:
@@ -213,6 +214,12 @@ def project(path):
                         add('FUT.read_local_data', ev, args=a, res=ev.val, derived=True, via='slot')
                 continue
             if n == 'std::ptr::read' and a and a[-1][0] == 'call' and a[-1][2] in (MU + 'as_ptr', MU + 'as_mut_ptr') and a[-1][3] \
+                    and a[-1][3][0][0] in ('ref', 'rawptr') and a[-1][3][0][1][0] == 'local':
+                # `ptr::read(slot.as_ptr())` on a local MaybeUninit slot: the bitwise spelling of `slot.assume_init_read()`
+                add('CALL', ev, callee=n, args=a, res=ev.val)
+                add('SLOT.assume_init_read', ev, args=(a[-1][3][0],), res=ev.val, derived=True)
+                continue
+            if n == 'std::ptr::read' and a and a[-1][0] == 'call' and a[-1][2] in (MU + 'as_ptr', MU + 'as_mut_ptr') and a[-1][3] \
                     and a[-1][3][0][0] in ('ref', 'rawptr') and _has_field(a[-1][3][0][1], 'data'):
                 add('CALL', ev, callee=n, args=a, res=ev.val)
                 add('FUT.read_local_data', ev, args=a, res=ev.val, derived=True, via='slot')
@@ -269,6 +276,16 @@ def project(path):
                             add('Q.pop_front', ev, args=(), res=('counted', src_[1]), synthetic=True)
                             add('BR', ev, label='pop', outcome='None', val=('counted', src_[1]), synthetic=True)
                 continue
+            if ev.label == 'fs_done' and ev.outcome == 'F':
+                fs_excluded.add('Done')
+            if ev.label == 'fs_waiting' and ev.outcome == 'F':
+                fs_excluded.add('Waiting')
+            if ev.label == 'fstate' and str(ev.outcome).startswith('other('):
+                # `if state.is_done() {..}` earlier on the path, then `match state { Zero => .., _ => .. }`
+                opts = [x for x in str(ev.outcome)[6:-1].split('|') if x not in fs_excluded]
+                if len(opts) == 1:
+                    add('BR', ev, label=ev.label, outcome=opts[0], val=ev.val)
+                    continue
             if ev.label is not None:
                 add('BR', ev, label=ev.label, outcome=ev.outcome, val=ev.val)
             else:
